@@ -1024,7 +1024,8 @@ def rule_walkup(ctx, prop):
             look = [b for b, t in f.calls() if callee(t).endswith("lookup_config_file_in_directory")]
             rec = [(b, t) for b, t in f.calls() if callee(t).endswith("::find_config_file")]
             xdg = [b for b, t in f.calls() if callee(t).endswith("search_config_locations")]
-            eqs = [(b, t) for b, t in f.calls() if callee(t).endswith("PartialEq>::eq") and "Option<&std::path::Path>" in (t.get("fn") or "")]
+            eqs = [(b, t) for b, t in f.calls() if re.search(r"PartialEq>?::(eq|ne)$", callee(t)) and "Option<&std::path::Path>" in (t.get("fn") or "")]
+            eq_negated = bool(eqs) and callee(eqs[0][1]).endswith("::ne")      # `Some(directory) != root`: the same test, read inverted
             isn = [(b, t) for b, t in f.calls() if callee(t).endswith("Option::<T>::is_none")]
             shape_ok = rep.anchor(len(look) == 1 and len(rec) == 1 and len(xdg) == 1,
                                   f"find_config_file shape (lookup={len(look)} rec={len(rec)} xdg={len(xdg)})", cfg)
@@ -1073,6 +1074,8 @@ def rule_walkup(ctx, prop):
                                         "lookup" in k)
                         recursed = any(b_ == rb for b_, c_, t_ in st.calls)
                         eqv = st.decisions.get(eb)
+                        if eq_negated and eqv is not None:
+                            eqv = not eqv
                         psides = set()
                         for k, v in st.disc.items():
                             if k.startswith("call:") and "." not in k and int(k[5:]) in parentish and v in ("Some", "None"):
